@@ -383,6 +383,7 @@ func runReader(c *core.Ctx) {
 	}
 	var rd io.Reader = bytes.NewReader(fc.text)
 	transport := "bytes"
+	abandoned := false
 	switch c.Rng.Intn(3) {
 	case 1:
 		rd, transport = shortReads{rd, c.Rng}, "short-reads"
@@ -391,7 +392,13 @@ func runReader(c *core.Ctx) {
 		if err == nil {
 			go func() { pw.Write(fc.text); pw.Close() }()
 			rd, transport = pr, "os-pipe"
-			defer pr.Close()
+			// (not closed when the watchdog gave up on the read: the reader goroutines are still there and
+			// would die of "file already closed", which is the harness's doing, not a verdict)
+			defer func() {
+				if !abandoned {
+					pr.Close()
+				}
+			}()
 		}
 	}
 	det := map[string]any{"format": format, "forced_chunk_size": chunk, "workers": workers, "transport": transport, "header_mode": headerMode, "records": nrec, "style": fc.style, "full_file_batch": fullFile}
@@ -421,6 +428,7 @@ func runReader(c *core.Ctx) {
 		}
 	})
 	if !ok {
+		abandoned = true
 		return
 	}
 	c.Count("evaluations", 1)
